@@ -13,14 +13,16 @@ SHARD = 12
 SHARD_TIMEOUT = 600
 LEVEL_TEXT = ("Coq theorems over an exact-rational executable model of the blocked double sum of all variance/covariance classes: "
               "(1) srange chunking tiles every linkage group for every step >= 1, hence every matrix entry is independent of `mem`; "
-              "(2) every entry of the two-way matrix, and every entry with distinct last two parents of the three-way, four-way and dihybrid matrices, "
+              "(2) EVERY entry of the two-way, three-way, four-way and dihybrid matrices (repeated last parents and dihybrid selfs included) "
               "equals the covariance of the two doubled-haploid trait values under the exhaustive enumeration of whole MULTI-LOCUS gametes "
               "(uniform initial strand, independent crossovers per gap, p = 1/2 between linkage groups; k selfing generations = two independent "
               "meioses of the same individual each) for EVERY number of loci, linkage-group layout, gap vector and selfing depth k; proved via "
               "(a) the pairwise marginal of the multi-locus selfing process is the two-locus process with r = chain fraction, (b) the two-locus selfing "
               "recursion derived from the enumeration and solved as the coded rprob_filial / D1 / D2 for all k, within 2^-(k+1) of the nself=inf formula; "
-              "(3) the entries the loops never visit (repeated last parents, dihybrid selfs, genic diagonals) are refuted by computed witnesses; "
-              "(4) symmetry in exchangeable parents and traits, zero for identical parents, taxa equivariance, genic = genetic with linkage ignored, "
+              "(3) the former code, whose loops never visited repeated last parents / dihybrid selfs / genic diagonals, is kept as old_* definitions: "
+              "it agrees with the repaired code off that diagonal and is refuted on it by computed witnesses (regression statements); "
+              "(4) symmetry in exchangeable parents and traits, zero for identical parents, taxa equivariance under every index map, "
+              "every entry of the two-, three-, four-way and dihybrid genic matrices = genetic with linkage ignored, "
               "UC = mean + i*sqrt(var), Haldane no-interference over R. "
               "The model is tied to the code by evaluating it inside Coq (vm_compute, exact Q, tolerance 2^-30) against the implementation's matrices.")
 LEVEL_NOTE = ("trusted: Coq kernel + vm_compute; classical-real axioms only in the Haldane lemma; the tie to the code is differential on generated inputs; "
@@ -28,11 +30,12 @@ LEVEL_NOTE = ("trusted: Coq kernel + vm_compute; classical-real axioms only in t
               "proved to be chain fractions) or taken from the implementation's HaldaneMapFunction.mapfn on |genpos_i-genpos_j| and checked in Coq for "
               "no-interference multiplicativity (2^-30); the enumeration theorems quantify over rational gap probabilities (Haldane values are irrational; "
               "the identities are polynomial); nself=inf is covered by the limit bound, not by an enumeration; sqrt in UC compared through squares; "
-              "genic covariance classes (abstract in pybrops) and from_pandas/hdf5 round trips are not modelled")
+              "genic covariance classes (abstract in pybrops) and from_pandas/hdf5 round trips are not modelled; trait/taxa labels, epgc and the result class are checked by the predicate only")
 TECHNIQUE = "Coq proof over an executable exact-rational model + enumeration semantics; in-Coq vm_compute correspondence; Python gamete enumeration as independent predicate"
 RULE = ("case = (scheme two|three|four|di, kind var|cov|genic|uc, entry point from_algmod|from_gmod|factory, phased 0/1 genotypes, chromosome sizes, "
         "positions (ln2/2 grid or dyadic), dyadic marker effects for 1-3 traits, nself in {0,1,2,3,5,inf}, mem in {1,2,3,5,None,...}); one PRNG; "
-        "corners: 1 taxon, 1 marker, 1-marker chromosomes, duplicate parents, coincident positions, mem = / > chromosome size; "
+        "corners: 1 taxon, 1 marker, 1-marker chromosomes, duplicate parents, coincident positions, mem = / > chromosome size; every index tuple of every "
+        "matrix is compared, so crosses with a repeated parent (female == male, female1 == male1, dihybrid selfs, genic diagonals) are in every case; "
         "non-trivial = some cross has parents differing at >= 2 linked markers; distinct by SHA-256 of the case")
 TRUSTED = ["numpy float64 matrix products are compared in tolerance regime T (2^-30 relative to 1+|exact value|) against the exact rational model",
            "free-position cases: the r_ij fed to the Coq model come from HaldaneMapFunction.mapfn (verified by C11); the predicate recomputes them with math.exp",
@@ -111,6 +114,11 @@ def gen_cases(rng, tier):
                                      posmode="ln2" if (nself, mem) != (0, 1) else "free", via="algmod"))
         for via in ("algmod", "gmod", "fcty_gmod", "fcty_algmod"):
             cases.append(_mkcase(rng, scheme, "var", via=via, n=2))
+    # genic matrices of every scheme with enough taxa for all parents to differ, and the covariance classes of every scheme
+    for scheme in SCHEMES:
+        for via in ("algmod", "gmod"):
+            cases.append(_mkcase(rng, scheme, "genic", via=via, n=3))
+            cases.append(_mkcase(rng, scheme, "cov", via=via, n=3 if scheme != "four" else 2, t=2))
     # usefulness criterion: every scheme x entry point x unique/repeated parents, enough taxa for a proper cross
     for scheme in SCHEMES:
         for ucvia in ("calc", "Subset", "Real", "Integer", "Binary"):
@@ -451,14 +459,10 @@ def _get(mat, idx):
     return mat
 
 def _diag_pattern(scheme, cross):
-    """index pattern the implementation's loops never visit"""
+    """crosses with a repeated last parent / selfs (the index pattern the loops did not visit before the repairs)"""
     if scheme in ("two", "di"): return cross[0] == cross[1]
     if scheme == "three": return cross[1] == cross[2]
     return cross[2] == cross[3]
-
-# (scheme, kind) -> (exception types: IndexError inside the loops, ValueError from the constructor's ndim check when no cross is visited, finding id)
-KNOWN_RAISES = {("three", "genic"): (("IndexError", "ValueError"), "C12-genic-multiway-indexerror"), ("four", "genic"): (("IndexError", "ValueError"), "C12-genic-multiway-indexerror"),
-                ("four", "cov"): (("IndexError", "ValueError"), "C12-cov-fourway-indexerror"), ("di", "cov"): (("ValueError",), "C12-cov-dihybrid-valueerror")}
 
 def _expected_dim(case):
     return {"two": 2, "three": 3, "four": 4, "di": 2}[case["scheme"]]
@@ -472,7 +476,7 @@ def pred(case, out):
     if kind == "uc":
         return _pred_uc(case, out)
     if "raised" in out:
-        return ["[raise:%s:%s] from_algmod raised %s: %s" % (scheme, kind, out["raised"], out.get("msg", ""))]
+        return ["%s/%s via %s raised %s: %s" % (scheme, kind, case["via"], out["raised"], out.get("msg", ""))]
     # ---- metadata
     dim = _expected_dim(case)
     want_shape = [n] * dim + ([t, t] if kind == "cov" else [t])
@@ -483,7 +487,7 @@ def pred(case, out):
     if out["taxa_grp"] != [i // 2 for i in range(n)]: bad.append("taxa_grp not carried over")
     want_trait = ["tr%d" % k for k in range(t)] if case.get("tlabels", True) else None
     if out["trait"] != want_trait:
-        bad.append("[trait-dropped:%s:%s] trait labels %s, the model's are %s" % (scheme, kind, out["trait"], want_trait))
+        bad.append("trait labels %s, the genomic model's are %s" % (out["trait"], want_trait))
     want_epgc = {"two": [0.5, 0.5], "three": [0.5, 0.25, 0.25], "four": [0.25] * 4, "di": [0.5, 0.5]}[scheme]
     if out["epgc"] != want_epgc: bad.append("epgc %s" % out["epgc"])
     # ---- values against the enumeration
@@ -497,14 +501,10 @@ def pred(case, out):
                 want = tv[a] if kind == "genic" else tv[a, b]
                 if not _close(got, want):
                     nbad += 1
-                    tag = ""
-                    if _diag_pattern(scheme, c):
-                        if got == "nan": tag = "[uninit:%s:%s] " % (scheme, kind)
-                        elif got == 0.0: tag = "[diag-zero:%s:%s] " % (scheme, kind)
-                    bad.append("%sentry %s trait %s: reported %r, gamete enumeration gives %r" % (tag, list(c), (a, b) if kind == "cov" else a, got, float(want)))
+                    bad.append("entry %s trait %s: reported %r, gamete enumeration gives %r" % (list(c), (a, b) if kind == "cov" else a, got, float(want)))
     # ---- full multi-locus enumeration on a few crosses (small cases)
     if kind != "genic" and len(case["pos"]) <= 4 and case["nself"] in (0, 1, 2):
-        crosses = [c for c in truth if not _diag_pattern(scheme, c)][:4]
+        crosses = [c for c in truth if not _diag_pattern(scheme, c)][:4] + [c for c in truth if _diag_pattern(scheme, c)][-3:]
         for c in crosses:
             tv = truth_full(case, c)
             for a in range(t):
@@ -539,13 +539,12 @@ def pred(case, out):
     seen = []
     for b in bad:
         if b not in seen: seen.append(b)
-    seen.sort(key=lambda b: b.startswith("["))          # clauses that are not a known pattern first
     return seen
 
 def _pred_uc(case, out):
     if "raised" in out:
         if out["raised"] == "empty-xmap": return []
-        return ["[raise:%s:uc] usefulness criterion raised %s: %s" % (case["scheme"], out["raised"], out.get("msg", ""))]
+        return ["usefulness criterion (%s) raised %s: %s" % (case["scheme"], out["raised"], out.get("msg", ""))]
     bad = []
     scheme = case["scheme"]
     n = len(case["hap0"]); t = len(case["u"][0])
@@ -568,9 +567,7 @@ def _pred_uc(case, out):
         for a in range(t):
             want = float(numpy.dot(contrib, bv[list(c), a]) + si * math.sqrt(max(tv[a, a], 0.0)))
             if not _close(row[a], want, 1e-7):
-                tag = "[diag-zero:%s:uc] " % scheme if _diag_pattern(scheme, c) else ""
-                bad.append("%sUC of cross %s trait %d: reported %r, mean + i*sqrt(enumerated variance) = %r" % (tag, list(c), a, row[a], want))
-    bad.sort(key=lambda b: b.startswith("["))
+                bad.append("UC of cross %s trait %d: reported %r, mean + i*sqrt(enumerated variance) = %r" % (list(c), a, row[a], want))
     return bad
 
 def _norm_ppf(q):
@@ -582,39 +579,9 @@ def _norm_ppf(q):
     return (lo + hi) / 2
 
 # ----------------------------------------------------------------------------------------------- bookkeeping
-def _tags(clauses):
-    out = []
-    for c in clauses:
-        if c.startswith("[") and "]" in c: out.append(c[1:c.index("]")])
-        else: out.append(None)
-    return out
-
 def classify(case, out, clauses):
-    """a failure belongs to a known finding only if EVERY failing clause carries that finding's pattern tag"""
-    tags = _tags(clauses)
-    if not tags or any(tg is None for tg in tags): return None
-    scheme, kind = case["scheme"], case["kind"]
-    ids = set()
-    for tg in tags:
-        what = tg.split(":")[0]
-        if what == "raise":
-            exp = KNOWN_RAISES.get((scheme, kind))
-            if exp is None or out.get("raised") not in exp[0]: return None
-            ids.add(exp[1])
-        elif what == "diag-zero":
-            if scheme == "two" or kind == "genic": return None
-            ids.add({"three": "C12-threeway-repeated-parent-zero", "four": "C12-fourway-repeated-parent-zero", "di": "C12-dihybrid-self-zero"}[scheme])
-        elif what == "uninit":
-            if kind != "genic": return None
-            ids.add("C12-genic-diagonal-uninitialised")
-        elif what == "trait-dropped":
-            if scheme == "two" or kind == "genic": return None
-            ids.add("C12-trait-labels-dropped")
-        else: return None
-    order = ["C12-genic-multiway-indexerror", "C12-cov-fourway-indexerror", "C12-cov-dihybrid-valueerror", "C12-threeway-repeated-parent-zero",
-             "C12-fourway-repeated-parent-zero", "C12-dihybrid-self-zero", "C12-genic-diagonal-uninitialised", "C12-trait-labels-dropped"]
-    for i in order:
-        if i in ids: return i
+    """every defect formerly recorded for C12 has been repaired in the library (known_findings.d/C12.json: all `fixed`):
+    no failure pattern is excused any more"""
     return None
 
 def nontrivial(case, out):
@@ -649,6 +616,9 @@ def _setup_expr(case, out):
     else: R = E.lst2(out.get("R", []), _q)
     return p, U, chroms, mem, nself, R
 
+def _has_nan(x):
+    return x == "nan" if not isinstance(x, list) else any(_has_nan(v) for v in x)
+
 def _nest(x, f):
     return f(x) if not isinstance(x, list) else "[" + "; ".join(_nest(v, f) for v in x) + "]"
 
@@ -659,15 +629,14 @@ def emit_case(case, out):
     G0 = E.lst2(case["hap0"], E.z); G1 = E.lst2(case["hap1"], E.z)
     if case["mem"] is not None and case["mem"] >= 5000: case = dict(case, mem=4999)      # nat literal limit; any step > chromosome size is one chunk
     p, U, chroms, mem, nself, R = _setup_expr(case, out)
-    if kind in ("var", "cov") and (scheme, kind) in KNOWN_RAISES:
-        return "%s && %s" % ({"four": "fourway_cov_raises", "di": "dihybrid_cov_raises"}[scheme], E.b("raised" in out))
-    if kind == "genic" and scheme in ("three", "four"):
-        return "multiway_genic_raises && %s" % E.b("raised" in out)
     if "raised" in out:
         return "false" if out["raised"] != "empty-xmap" else None
+    if kind != "uc" and _has_nan(out["mat"]):
+        return "false"                                   # a read of never-written memory (numpy.empty poisoned with NaN)
     if kind == "genic":
-        impl = _nest(out["mat"], lambda v: "None" if v == "nan" else "(Some %s)" % _q(v))
-        return "oq_lll %s (genic_var %s %s %s %s %s %s)" % (impl, U, E.nat(p), G0, G1, E.nat(n), E.nat(t))
+        impl = _nest(out["mat"], _q)
+        fn = {"two": ("qlll_eqb", "genic_var"), "di": ("qlll_eqb", "genic_var"), "three": ("ql4_eqb", "genic3_var"), "four": ("ql5_eqb", "genic4_var")}[scheme]
+        return "%s %s (%s %s %s %s %s %s %s)" % (fn[0], impl, fn[1], U, E.nat(p), G0, G1, E.nat(n), E.nat(t))
     head = "(let R := %s in let S := mk_setup %s %s %s %s %s R in r_ok R %s && " % (R, E.nat(p), U, chroms, mem, nself, chroms)
     if kind == "uc":
         sc = {"two": 2, "three": 3, "four": 4, "di": 0}[scheme]
@@ -677,7 +646,8 @@ def emit_case(case, out):
     impl = _nest(out["mat"], _q)
     fn = {("two", "var"): ("qclose_lll", "twoway_var S %s" % G0), ("two", "cov"): ("qclose_l4", "twoway_cov S %s" % G0),
           ("three", "var"): ("qclose_l4", "threeway_var S %s" % G0), ("three", "cov"): ("qclose_l5", "threeway_cov S %s" % G0),
-          ("four", "var"): ("qclose_l5", "fourway_var S %s" % G0), ("di", "var"): ("qclose_lll", "dihybrid_var S %s %s" % (G0, G1))}[(scheme, kind)]
+          ("four", "var"): ("qclose_l5", "fourway_var S %s" % G0), ("four", "cov"): ("qclose_l6", "fourway_cov S %s" % G0),
+          ("di", "var"): ("qclose_lll", "dihybrid_var S %s %s" % (G0, G1)), ("di", "cov"): ("qclose_l4", "dihybrid_cov S %s %s" % (G0, G1))}[(scheme, kind)]
     return head + "%s %s (%s %s %s))" % (fn[0], impl, fn[1], E.nat(n), E.nat(t))
 
 def _drop_locus(case, j):
